@@ -12,7 +12,8 @@ CLAIMED = {
                   "the normalized / symmetric variants, zero on identical inputs, symmetry, positivity, option validation; Parseval: the conjugation-free bilinear identity, the half spectrum with "
                   "multiplicities for real sequences, and model fourier_agg = spatial_agg for D = 1 and every n; the Sobolev split and the H1 closed form (weights 1 + |2 pi k / L|^2); "
                   "Cauchy-Schwarz via the Lagrange identity, corr^2 = corr2, -1 <= corr <= 1, +-1 for proportional fields. The extracted metric model is compared in exact rationals with the "
-                  "real functions (MSE/nMSE/sMSE, fourier_*, H1_*, correlation, mean_metric, scaling array, band mask).",
+                  "real functions (MSE/nMSE/sMSE, fourier_*, H1_*, correlation, mean_metric, scaling array, band mask). The mode logic of spatial_norm / fourier_norm, the spatial aggregator and the exponent "
+                  "tables of the named metrics are re-translated from the source on every run (harness/translate/metrics.py) and proved to be the model's.",
              note="PARTIAL: Parseval is proved in every dimension for the D-fold iterate of the 1-D transform, both over the full spectrum and folded onto the stored half spectrum of a real field (Hermitian symmetry, multiplicities 1/2 on the last axis); the identification of the model's own index list and weights with that sum for D >= 2, and resolution independence, are decided on the real code only (independent NumPy quadrature, closed-form "
                   "trigonometric polynomials, map_between_resolutions). The absolute 1e-5 coefficient floor of fourier_aggregator is not modelled (statements are about spectra the floor leaves "
                   "untouched, as the property says); p = 1 metrics are witness-only; sqrt enters as an abstract root function.",
